@@ -26,7 +26,7 @@ add = '''* **Round 5 (end of session 4, §5.2c).**  Twenty seeds written against
   failing spawns × std-descriptor redirections in the boundedness cycles), and
   two of the new families found genuine defects of the unchanged tree at once
   (rows 100–101 of §4.1: re-marshalling a fiber after a tail call; functions
-  with more than 240 parameters).  Latest evaluation: %d with input, %d
+  with more than 240 parameters; rows 102–103 came from the final proof pass).  Latest evaluation: %d with input, %d
   no-input, %d missed (not yet with input: %s).  Detection at first contact over
   the five rounds: 92/120, 11/20, %d/20.
 ''' % (f["input"], f["no-input"], f["**miss**"], l["input"], l["no-input"], l["**miss**"], left, f["input"] + f["no-input"])
